@@ -415,6 +415,13 @@ int main(void)
 			int r = lh_table_lookup_ex(T, k, &v);
 			struct lh_entry *e = lh_table_lookup_entry(T, k);
 			free(blk);
+			if (!r && v != NULL)
+			{
+				/* linkhash.h: on a miss *v is set to NULL */
+				puts("look: key not found but *v was not set to NULL");
+				fflush(stdout);
+				continue;
+			}
 			show(r, r, (long)(intptr_t)v, NULL, e ? (long)(e - T->table) : -1, 1);
 		}
 		else if (T && NW == 2 && !strcmp(W[0], "del"))
